@@ -438,3 +438,93 @@ func TestScannerExamples(t *testing.T) {
 		}
 	}
 }
+
+// ---------------------------------------------------------------------------
+// Steps that come out of one YAML document and share anchored blocks: every alias is a copy of its
+// own, so applying a permutation to one step leaves its matrix definition, and every other step,
+// exactly as they were - and each step is interpolated from ITS tokens.
+
+var recParsed = ev.New("TestPropParsedAliasedSteps", "YAML documents of 2-4 command steps that alias the same anchored mappings / sequences (holding matrix tokens) as unknown fields, inside matrix adjustments' extras and as plugin configs; each step in turn gets a permutation of its own: the result is the reference scanner applied to that step's own snapshot, the step's matrix definition and all other steps (snapshots taken before) are unchanged; non-trivial = >= 2 steps alias the same collection; distinct by (document, permutations)")
+
+func TestPropParsedAliasedSteps(t *testing.T) {
+	ev.Check(t, 1500, 30000, func(t *rapid.T) {
+		tok := func(label string) string {
+			return rapid.SampledFrom([]string{"{{matrix.os}}", "{{ matrix.os }}", "pre-{{matrix.os}}-post", "{{matrix.os}}{{matrix.os}}", "plain", "{matrix.os}", "x"}).Draw(t, label)
+		}
+		var b strings.Builder
+		fmt.Fprintf(&b, "x-shared-map: &m {queue: %q, nested: {deep: %q}, list: [%q, other]}\n", tok("a"), tok("b"), tok("c"))
+		fmt.Fprintf(&b, "x-shared-list: &l [%q, {k: %q}]\n", tok("d"), tok("e"))
+		b.WriteString("steps:\n")
+		ns := rapid.IntRange(2, 4).Draw(t, "nsteps")
+		shared := 0
+		for i := 0; i < ns; i++ {
+			fmt.Fprintf(&b, "  - command: %q\n    label: %q\n", "echo "+tok("cmd"), tok("lbl"))
+			used := false
+			if rapid.IntRange(0, 3).Draw(t, "agents") > 0 {
+				b.WriteString("    agents: *m\n")
+				used = true
+			}
+			if rapid.Bool().Draw(t, "retry") {
+				b.WriteString("    retry: *l\n")
+				used = true
+			}
+			if rapid.Bool().Draw(t, "plugin") {
+				b.WriteString("    plugins:\n      - docker#v1: *m\n")
+			}
+			b.WriteString("    matrix:\n      setup: {os: [linux, darwin]}\n")
+			if rapid.Bool().Draw(t, "adj") {
+				b.WriteString("      adjustments:\n        - with: {os: plan9}\n          soft_fail: *l\n          notes: *m\n")
+				used = true
+			}
+			if used {
+				shared++
+			}
+		}
+		text := b.String()
+		p, err := pipeline.Parse(strings.NewReader(text))
+		if err != nil {
+			t.Fatalf("Parse: %v\n%s", err, text)
+		}
+		var steps []*pipeline.CommandStep
+		for _, s := range p.Steps {
+			steps = append(steps, s.(*pipeline.CommandStep))
+		}
+		snap := func() []*gt.Node {
+			out := make([]*gt.Node, len(steps))
+			for i, s := range steps {
+				out[i] = canon.Step(s, canon.Raw)
+			}
+			return out
+		}
+		var perms []string
+		for i, s := range steps {
+			before := snap()
+			v := rapid.SampledFrom([]string{"linux", "darwin", "plan9"}).Draw(t, "permval")
+			if v == "plan9" && (s.Matrix == nil || len(s.Matrix.Adjustments) == 0) {
+				v = "linux" // only an adjustment brings plan9 in
+			}
+			perms = append(perms, v)
+			perm := map[string]string{"os": v}
+			exp, unknown := expected(before[i], perm)
+			if len(unknown) > 0 {
+				t.Fatalf("harness: unknown dimensions %v", unknown)
+			}
+			if err := s.InterpolateMatrixPermutation(pipeline.MatrixPermutation{"os": v}); err != nil {
+				t.Fatalf("step %d: InterpolateMatrixPermutation(%v): %v\n%s", i, perm, err, text)
+			}
+			after := snap()
+			if d := gt.Diff(exp, after[i], gt.Opt{}); d != "" {
+				t.Fatalf("step %d after the permutation %v differs from the reference applied to its own strings (matrix definition included): %s\n%s", i, perm, d, text)
+			}
+			for j := range steps {
+				if j != i {
+					if d := gt.Diff(before[j], after[j], gt.Opt{}); d != "" {
+						t.Fatalf("applying a permutation to step %d changed step %d: %s\n%s", i, j, d, text)
+					}
+				}
+			}
+		}
+		recParsed.Case(ev.Hash(text, strings.Join(perms, ",")), shared >= 2, fmt.Sprintf("steps=%d", ns))
+		recParsed.MaybeSample(shared >= 2, func() any { return map[string]any{"document": text, "permutations": perms} })
+	})
+}
